@@ -324,12 +324,16 @@ func ReplayLoadScenario(s LoadScenario, b Block, others []Block, thorough bool, 
 	type variant struct {
 		cf      concreteFault
 		overlap bool
+		reify   bool
 	}
 	var variants []variant
 	for _, cf := range faults {
-		variants = append(variants, variant{cf, false})
+		variants = append(variants, variant{cf, false, false})
 		if !cf.openErr {
-			variants = append(variants, variant{cf, true})
+			variants = append(variants, variant{cf, true, false})
+			if s.Op == "Load" || s.Op == "LoadPlusRaw" {
+				variants = append(variants, variant{cf, false, true})
+			}
 		}
 	}
 	for _, vr := range variants {
@@ -341,6 +345,19 @@ func ReplayLoadScenario(s LoadScenario, b Block, others []Block, thorough bool, 
 		ls := cidlink.DefaultLinkSystem()
 		nested := 0
 		var nestedErr error
+		if vr.reify {
+			// a NodeReifier is configured: the identity, but (like an ADL that resolves a shard when it is reified) it
+			// eagerly loads a block through the link system it is handed.  No outcome below may change for it.
+			cf.desc += ", with an identity NodeReifier that loads a block through the link system it is given"
+			ls.NodeReifier = func(lc linking.LinkContext, n datamodel.Node, given *linking.LinkSystem) (datamodel.Node, error) {
+				nested++
+				defer func() { nested-- }()
+				if _, err := given.LoadRaw(lc, b.Link); err != nil && nestedErr == nil {
+					nestedErr = err
+				}
+				return n, nil
+			}
+		}
 		ls.StorageReadOpener = func(_ linking.LinkContext, l datamodel.Link) (io.Reader, error) {
 			if nested > 0 { // the overlapping load is served the intact block
 				return bytes.NewReader(b.Bytes), nil
